@@ -2333,6 +2333,10 @@ func (h *c15) replay(t *testing.T, path string) {
 			continue
 		}
 		p := strings.Split(line, "|")
+		if p[0] == "burst" {
+			h.replayBurst(p)
+			continue
+		}
 		if len(p) >= 2 && p[0] == "exchange" {
 			// exchange|<link>|<request>|<response>: the pair over both links, with a fresh key
 			priv, err := encryption.GeneratePrivkey()
@@ -2453,4 +2457,5 @@ func TestVerifC15(t *testing.T) {
 	h.obfuscators()
 	h.anys()
 	h.exchanges(t, priv, domain)
+	h.bursts(t, priv, domain, vlib.Budget(40, 600))
 }
